@@ -1387,7 +1387,7 @@ class Interp(object):
             return len(s.values)
         if s is None or self.is_number(s):
             raise_py('TypeError', 'object of type %s has no len()' % self.kind(s))
-        if isinstance(s, Opaque) and s.tag == 'dataframe':
+        if isinstance(s, Opaque) and (s.tag == 'dataframe' or self.config.get('opaque_len') is not None):
             return self.libs_len(s)
         raise Unsupported('len of %s' % self.kind(s))
 
@@ -1566,6 +1566,11 @@ class Interp(object):
             return self.symdict_get(obj, key, True)
         if self.kind(obj) == 'str':
             if isinstance(key, SliceV):
+                h = self.config.get('str_slice_hook')
+                if h is not None:
+                    r = h(self, obj, key)
+                    if r is not None:
+                        return r
                 return self.slice_seq(obj, key)
             if isinstance(obj, str) and isinstance(key, int):
                 try:
